@@ -360,9 +360,29 @@ pub struct Session {
 }
 
 pub fn preamble(root_uri: Option<&str>) -> Vec<PlannedOp> {
+    preamble_caps(root_uri, false)
+}
+
+/// The first four operations of a session (initialize ... initialized), for reference sessions
+/// that must talk to the server as the same kind of client.
+pub fn preamble_of(s: &Session) -> Vec<PlannedOp> {
+    s.ops.iter().take(4).map(|p| PlannedOp::new(p.op.clone())).collect()
+}
+
+/// `rich`: the client announces what a real editor announces (configuration, work-done progress,
+/// dynamic registration of file watchers) and answers the requests the server then sends to it.
+pub fn preamble_caps(root_uri: Option<&str>, rich: bool) -> Vec<PlannedOp> {
+    let caps = if rich {
+        json!({
+            "window": {"workDoneProgress": true, "showMessage": {"messageActionItem": {"additionalPropertiesSupport": true}}},
+            "workspace": {"configuration": true, "didChangeWatchedFiles": {"dynamicRegistration": true, "relativePatternSupport": true}},
+        })
+    } else {
+        json!({})
+    };
     vec![
         PlannedOp::new(Op::Raw { msg: json!({"jsonrpc":"2.0","id":0,"method":"initialize","params":{
-            "processId": null, "rootUri": root_uri, "capabilities": {}}}) }),
+            "processId": null, "rootUri": root_uri, "capabilities": caps}}) }),
         PlannedOp::new(Op::Barrier),
         PlannedOp::new(Op::Raw { msg: json!({"jsonrpc":"2.0","method":"initialized","params":{}}) }),
         PlannedOp::new(Op::Barrier),
@@ -617,6 +637,8 @@ pub fn run_session(s: &Session, keep_log: bool) -> History {
     let probe = probe_rx.recv_timeout(Duration::from_secs(20)).ok();
     const MAX_STEPS: u64 = 3_000_000;
     let mut closed_by_harness = false;
+    let mut pending_replies: std::collections::VecDeque<Value> = std::collections::VecDeque::new();
+    let mut replies_sent = 0u64;
 
     loop {
         let mut st = match core.wait_settled() {
@@ -631,6 +653,28 @@ pub fn run_session(s: &Session, keep_log: bool) -> History {
         drop(st);
         outbuf.extend(pipe.take_output());
         for msg in parse_frames(&mut outbuf) {
+            // a request of the server to the client: the client model answers it (when, the
+            // scheduler decides)
+            if let (Some(id), Some(method)) = (msg.get("id"), msg.get("method").and_then(|m| m.as_str())) {
+                let reply = match method {
+                    "workspace/configuration" => {
+                        let n = msg["params"]["items"].as_array().map_or(1, |a| a.len());
+                        let item = match (s.seed ^ s.run ^ replies_sent) % 3 {
+                            0 => Value::Null,
+                            1 => json!({}),
+                            _ => json!({"diagnostics": {"ignored": []}}),
+                        };
+                        json!({"jsonrpc":"2.0","id": id, "result": vec![item; n]})
+                    }
+                    "window/workDoneProgress/create" | "client/registerCapability" | "client/unregisterCapability" => {
+                        json!({"jsonrpc":"2.0","id": id, "result": null})
+                    }
+                    "window/showMessageRequest" => json!({"jsonrpc":"2.0","id": id, "result": null}),
+                    _ => json!({"jsonrpc":"2.0","id": id, "error": {"code": -32601, "message": "method not found"}}),
+                };
+                pending_replies.push_back(reply);
+                *h.probes.entry(format!("server_request.{method}")).or_insert(0) += 1;
+            }
             h.events.push(Ev::Recv { msg, step });
         }
         st = core.lock();
@@ -670,10 +714,14 @@ pub fn run_session(s: &Session, keep_log: bool) -> History {
         } else if next_op < s.ops.len() {
             let needs_quiet = s.sequential
                 || matches!(s.ops[next_op].op, Op::Barrier | Op::ProbeText { .. });
-            client_enabled = !needs_quiet || threads.is_empty();
+            client_enabled = !needs_quiet || (threads.is_empty() && pending_replies.is_empty());
         }
         if client_enabled {
             labels.push("client".into());
+        }
+        let reply_enabled = !pending_replies.is_empty() && partial.is_none() && (!s.sequential || threads.is_empty());
+        if reply_enabled {
+            labels.push("client.reply".into());
         }
         if labels.is_empty() {
             if next_op >= s.ops.len() && partial.is_none() {
@@ -711,6 +759,14 @@ pub fn run_session(s: &Session, keep_log: bool) -> History {
         // ---- perform the client action
         let step = st.step;
         drop(st);
+        if labels[i] == "client.reply" {
+            let reply = pending_replies.pop_front().unwrap();
+            pipe.push(&frame(&reply));
+            core.with(|st| st.wake_owed = true);
+            replies_sent += 1;
+            *h.probes.entry("server_request_answered".into()).or_insert(0) += 1;
+            continue;
+        }
         if let Some((bytes, off, cuts, op_idx)) = partial.take() {
             let next_cut = cuts.iter().copied().find(|c| *c > off && *c < bytes.len()).unwrap_or(bytes.len());
             pipe.push(&bytes[off..next_cut]);
@@ -763,6 +819,21 @@ pub fn run_session(s: &Session, keep_log: bool) -> History {
                     *h.faults.entry("fragmentation".into()).or_insert(0) += 1;
                 } else {
                     h.events.push(Ev::Sent { op: op_idx, step });
+                    // messages the editor writes in one go with this one
+                    while next_op < s.ops.len()
+                        && s.ops[next_op].tags.iter().any(|t| t == "glued")
+                        && matches!(s.ops[next_op].op, Op::Open { .. } | Op::Change { .. } | Op::Close { .. } | Op::Save { .. } | Op::Request { .. } | Op::Cancel { .. } | Op::Watched { .. } | Op::Raw { .. })
+                    {
+                        let g = &s.ops[next_op];
+                        if matches!(g.op, Op::Open { .. } | Op::Change { .. }) {
+                            version += 1;
+                        }
+                        let msg = g.op.to_message(version).unwrap();
+                        pipe.push(&frame(&msg));
+                        h.events.push(Ev::Sent { op: next_op, step });
+                        *h.faults.entry("messages_in_one_write".into()).or_insert(0) += 1;
+                        next_op += 1;
+                    }
                 }
             }
         }
